@@ -8,6 +8,32 @@ FirstOf(S) == CHOOSE k \in S : \A m \in S : k <= m
 Same(o, w) == o.pan = "" /\ o.l = w.l /\ o.min = w.min /\ o.max = w.max /\ o.empty = IsEmptyBox(w)
 Why(o, w) == CASE o.pan # "" -> "panic" [] o.l # w.l -> "layout|got=" \o o.l \o "|want=" \o w.l
                [] o.min # w.min \/ o.max # w.max -> "box" [] OTHER -> "IsEmpty"
+\* ---- what C08's statement fixes about a recorded box o that was fed, from NewBounds(l0), with the leaves gs:
+\*  * no coordinate at all ("a geometry without coordinates has empty bounds"): IsEmpty() is true - layout, min and max of
+\*    such a box are representation, not promised;
+\*  * otherwise the layout has every dimension in which a coordinate exists and nothing beyond the join over l0 and ALL
+\*    leaves (an Extend / GeometryCollection.Bounds may or may not let a member without coordinates promote the layout);
+\*    in a dimension with coordinates min / max are exactly their minimum / maximum, addressed by NAME (Z with Z, M with M);
+\*    a dimension of the box without any coordinate holds an empty interval (max < min, e.g. the untouched (+Inf, -Inf));
+\*    IsEmpty() is false when every dimension of the box holds a coordinate and is left open in between.
+\* Every quantity is a function of the BAG of leaves (DVals / CoordDims / HiDims): the order of extension cannot matter.
+LayoutFits(o, l0, gs) == CoordDims(gs) \subseteq DimSet(o.l) /\ DimSet(o.l) \subseteq HiDims(l0, gs)
+BoxFits(o, gs) ==
+  LET od == Dims(o.l) IN
+  /\ Len(o.min) = Len(od) /\ Len(o.max) = Len(od)
+  /\ \A k \in DOMAIN od : LET v == DVals(gs, od[k]) IN
+                            IF v # {} THEN o.min[k] = SetMin(v) /\ o.max[k] = SetMax(v) ELSE o.max[k] < o.min[k]
+Fits(o, l0, gs) ==
+  LET cd == CoordDims(gs) IN
+  /\ o.pan = ""
+  /\ IF cd = {} THEN o.empty
+     ELSE /\ cd \subseteq DimSet(o.l) /\ DimSet(o.l) \subseteq HiDims(l0, gs) /\ BoxFits(o, gs)
+          /\ (DimSet(o.l) \subseteq cd => ~o.empty)
+WantL(l0, gs) == LET lo == LayoutOf(CoordDims(gs))  hi == LayoutOf(HiDims(l0, gs)) IN IF lo = hi THEN hi ELSE lo \o ".." \o hi
+WhyFits(o, l0, gs) ==
+  CASE o.pan # "" -> "panic" [] CoordDims(gs) = {} -> "IsEmpty"
+    [] ~LayoutFits(o, l0, gs) -> "layout|got=" \o o.l \o "|want=" \o WantL(l0, gs)
+    [] ~BoxFits(o, gs) -> "box" [] OTHER -> "IsEmpty"
 Mix(gs) == LET ls == {gs[i].l : i \in DOMAIN gs} IN
            IF "XYZ" \in ls /\ "XYM" \in ls THEN "z+m" ELSE IF Cardinality(ls) > 1 THEN "mixed" ELSE "uniform"
 \* Bounds.Polygon ("returns b as a two-dimensional Polygon") of a non-empty box: one closed XY ring whose vertices are
@@ -21,61 +47,68 @@ PolyOK(p, w) ==
        /\ {<<p.fc[2 * j - 1], p.fc[2 * j]>> : j \in 1..n} = Corners(w)
        /\ p.fc[1] = p.fc[2 * n - 1] /\ p.fc[2] = p.fc[2 * n]
 \* GeoJSON "bbox" of a geometry with coordinates: IF one is emitted it is all minima then all maxima of the tight box over
-\* a leading part of its dimensions (geojson drops M; whether Z / M are carried is not C08's business).  An encoding error
-\* (for instance +Inf in an empty dimension) and geometries without coordinates are accepted as they come.
-BBoxOK(o, w, has) ==
+\* a leading part of the dimensions of one of the layouts LayoutFits accepts (geojson drops M; whether Z / M are carried is
+\* not C08's business).  An encoding error (for instance +Inf in an empty dimension) and geometries without coordinates
+\* are accepted as they come.
+BBoxOK(o, l0, gs) ==
   IF o.pan # "" THEN FALSE
-  ELSE IF o.err # "" \/ ~o.has \/ ~has THEN TRUE
-  ELSE \E n \in 2..Len(w.min) : o.bb = BBoxOf(w, n)
+  ELSE IF o.err # "" \/ ~o.has \/ CoordDims(gs) = {} THEN TRUE
+  ELSE \E l \in {"XY", "XYZ", "XYM", "XYZM"} :
+         /\ CoordDims(gs) \subseteq DimSet(l) /\ DimSet(l) \subseteq HiDims(l0, gs)
+         /\ \E n \in 2..Len(Dims(l)) :
+              o.bb = [k \in 1..(2 * n) |-> IF k <= n THEN SetMin(DVals(gs, Dims(l)[k])) ELSE SetMax(DVals(gs, Dims(l)[k - n]))]
 VExtend(r) ==
-  LET gs == r.case.gs
+  LET gs == r.case.gs  l0 == r.case.l0
       Upto(k) == LeavesAll(SubSeq(gs, 1, k))
-      bad == {k \in DOMAIN r.steps : ~Same(r.steps[k], Tight(r.case.l0, Upto(k)))} IN
+      bad == {k \in DOMAIN r.steps : ~Fits(r.steps[k], l0, Upto(k))}
+      badown == {k \in DOMAIN r.own : ~Fits(r.own[k], "No", Leaves(gs[k]))} IN
   IF Len(r.steps) # Len(gs) THEN Bad("bounds|extend|short", 0)
-  ELSE IF ~Same(r.init, Tight(r.case.l0, <<>>)) THEN Bad("bounds|NewBounds|" \o Why(r.init, Tight(r.case.l0, <<>>)), 0)
+  ELSE IF ~Same(r.init, Tight(l0, <<>>)) THEN Bad("bounds|NewBounds|" \o Why(r.init, Tight(l0, <<>>)), 0)
   ELSE IF bad # {} THEN LET k == FirstOf(bad) IN
-       Bad("bounds|extend|" \o Why(r.steps[k], Tight(r.case.l0, Upto(k))) \o "|" \o Mix(Upto(k))
+       Bad("bounds|extend|" \o WhyFits(r.steps[k], l0, Upto(k)) \o "|" \o Mix(Upto(k))
            \o (IF \E j \in 1..k : "gc" \in DOMAIN gs[j] THEN "|collection" ELSE ""), k)
-  ELSE IF \E k \in DOMAIN r.own : ~Same(r.own[k], Tight("No", Leaves(gs[k]))) THEN
-       LET k == FirstOf({k \in DOMAIN r.own : ~Same(r.own[k], Tight("No", Leaves(gs[k])))}) IN Bad("bounds|geometry.Bounds()|" \o r.tys[k], k)
-  ELSE IF ~PolyOK(r.poly, Tight(r.case.l0, Upto(Len(gs)))) THEN Bad("bounds|Polygon", 0)
+  ELSE IF badown # {} THEN Bad("bounds|geometry.Bounds()|" \o r.tys[FirstOf(badown)], FirstOf(badown))
+  ELSE IF ~PolyOK(r.poly, Tight(l0, Upto(Len(gs)))) THEN Bad("bounds|Polygon", 0)
   ELSE OK
 IsNested(t) == \E i \in DOMAIN t.gc : "gc" \in DOMAIN t.gc[i]
 VGc(r) ==
   LET lv == Leaves(r.case.t)  w == Tight("No", lv) IN
-  IF ~Same(r.b, w) THEN Bad("bounds|GeometryCollection.Bounds|" \o Why(r.b, w) \o (IF IsNested(r.case.t) THEN "|nested" ELSE "|flat"), 0)
+  IF ~Fits(r.b, "No", lv) THEN Bad("bounds|GeometryCollection.Bounds|" \o WhyFits(r.b, "No", lv) \o (IF IsNested(r.case.t) THEN "|nested" ELSE "|flat"), 0)
   ELSE IF ~PolyOK(r.poly, w) THEN Bad("bounds|Polygon", 0)
-  ELSE IF ~BBoxOK(r.bbox, w, HasCoords(lv)) THEN Bad("bounds|geojson-bbox|GeometryCollection", 0)
+  ELSE IF ~BBoxOK(r.bbox, "No", lv) THEN Bad("bounds|geojson-bbox|GeometryCollection", 0)
   ELSE OK
 VGeo(r) ==
   LET lv == Leaves(r.case.t)  w == Tight("No", lv) IN
-  IF ~Same(r.b, w) THEN Bad("bounds|geometry.Bounds()|" \o r.ty \o "|" \o Why(r.b, w), 0)
+  IF ~Fits(r.b, "No", lv) THEN Bad("bounds|geometry.Bounds()|" \o r.ty \o "|" \o WhyFits(r.b, "No", lv), 0)
   ELSE IF ~PolyOK(r.poly, w) THEN Bad("bounds|Polygon", 0)
-  ELSE IF ~BBoxOK(r.bbox, w, HasCoords(lv)) THEN Bad("bounds|geojson-bbox|" \o r.ty, 0)
-  ELSE IF ~BBoxOK(r.bbd, w, HasCoords(lv)) THEN Bad("bounds|geojson-bbox|max-decimal-digits|" \o r.ty, 0)
+  ELSE IF ~BBoxOK(r.bbox, "No", lv) THEN Bad("bounds|geojson-bbox|" \o r.ty, 0)
+  ELSE IF ~BBoxOK(r.bbd, "No", lv) THEN Bad("bounds|geojson-bbox|max-decimal-digits|" \o r.ty, 0)
   ELSE OK
-\* Set / SetCoords with a well-formed box (min <= max) REPLACE the box by exactly that box in the current layout; the
-\* Extend calls that follow give the tight box of the two corners and everything fed in afterwards
+\* Set / SetCoords with a well-formed box (min <= max) REPLACE the box by exactly that box in the current layout (r.lset:
+\* the layout the recorder read off the box right before the call - which layout that is after feeding leaves without
+\* coordinates is left open, see Fits); the Extend calls that follow give the box of the two corners and everything fed
+\* in afterwards
 VSet(r) ==
-  LET c == r.case  np == Len(c.pre)
-      lmid == Tight(c.l0, LeavesAll(c.pre)).l
+  LET c == r.case  np == Len(c.pre)  lset == r.lset
       ix == [d \in {"x", "y", "z", "m"} |-> CASE d = "x" -> 1 [] d = "y" -> 2 [] d = "z" -> 3 [] OTHER -> 4]
-      sg == [l |-> lmid, cs |-> <<[k \in DOMAIN Dims(lmid) |-> c.smin[ix[Dims(lmid)[k]]]], [k \in DOMAIN Dims(lmid) |-> c.smax[ix[Dims(lmid)[k]]]]>>]
-      Want(k) == IF k <= np THEN Tight(c.l0, LeavesAll(SubSeq(c.pre, 1, k)))
-                 ELSE Tight(lmid, <<sg>> \o LeavesAll(SubSeq(c.post, 1, k - np - 1)))
-      bad == {k \in DOMAIN r.steps : ~Same(r.steps[k], Want(k))} IN
+      sg == [l |-> lset, cs |-> <<[k \in DOMAIN Dims(lset) |-> c.smin[ix[Dims(lset)[k]]]], [k \in DOMAIN Dims(lset) |-> c.smax[ix[Dims(lset)[k]]]]>>]
+      L0(k) == IF k <= np THEN c.l0 ELSE lset
+      Gs(k) == IF k <= np THEN LeavesAll(SubSeq(c.pre, 1, k)) ELSE <<sg>> \o LeavesAll(SubSeq(c.post, 1, k - np - 1))
+      bad == {k \in DOMAIN r.steps : ~Fits(r.steps[k], L0(k), Gs(k))} IN
   IF Len(r.steps) # np + 1 + Len(c.post) THEN Bad("bounds|set|short", 0)
   ELSE IF bad # {} THEN LET k == FirstOf(bad) IN
-       Bad("bounds|" \o (IF k <= np THEN "extend" ELSE IF k = np + 1 THEN c.op ELSE "extend-after-" \o c.op) \o "|" \o Why(r.steps[k], Want(k)), k)
-  ELSE IF ~PolyOK(r.poly, Want(Len(r.steps))) THEN Bad("bounds|Polygon", 0)
+       Bad("bounds|" \o (IF k <= np THEN "extend" ELSE IF k = np + 1 THEN c.op ELSE "extend-after-" \o c.op) \o "|" \o WhyFits(r.steps[k], L0(k), Gs(k)), k)
+  ELSE IF ~PolyOK(r.poly, Tight(L0(Len(r.steps)), Gs(Len(r.steps)))) THEN Bad("bounds|Polygon", 0)
   ELSE OK
 \* Overlaps(layout, b2) / OverlapsPoint(layout, p) "in layout": closed-interval arithmetic on the dimensions of the layout
 \* argument.  Strict when both boxes AGREE with the argument (same named dimensions at the same positions).  When a box only
 \* COVERS it (XYM asked of an XYZM box) the doc comment does not say whether dimensions go by position or by name: either
 \* answer is accepted.  When a box lacks a dimension of the argument nothing is specified: any outcome (also a panic).
+\* IsEmpty() of the first box: true when every dimension is (+Inf, -Inf), false when none is; a box whose X / Y extent is
+\* real while Z or M was never fed (or the like) may answer either way.
 VOverlap(r) ==
   LET c == r.case  n == Len(Dims(c.l))  b1 == c.b1  b2 == c.b2 IN
-  IF r.e1 # IsEmptyBox(b1) THEN Bad("bounds|IsEmpty", 0)
+  IF (AllInverted(b1) /\ ~r.e1) \/ (NoneInverted(b1) /\ r.e1) THEN Bad("bounds|IsEmpty", 0)
   ELSE IF AgreesWith(c.l, b1.l) /\ AgreesWith(c.l, b2.l) THEN
     IF r.pan # "" THEN Bad("bounds|overlap|panic", 0)
     ELSE IF r.ov # Overlap(n, b1.min, b1.max, b2.min, b2.max) THEN Bad("bounds|Overlaps|" \o c.l \o (IF IsEmptyBox(b1) \/ IsEmptyBox(b2) THEN "|empty" ELSE ""), 0)
@@ -103,18 +136,17 @@ VOvpt(r) ==
     ELSE IF badp # {} THEN Bad("bounds|OverlapsPoint|neither-by-position-nor-by-name|" \o c.l, FirstOf(badp))
     ELSE OK
   ELSE OK
-\* C16 for geom.Bounds and geom.Coord: the clone equals the original at clone time (and is the tight box of what was
-\* extended so far); extending / setting one of the two never shows through the other, in either order
+\* C16 for geom.Bounds and geom.Coord, stated on the recorded projections alone (what Extend ought to produce is C08's
+\* business: no model of Extend here).  The clone equals the original at clone time, field by field; after one side was
+\* mutated the OTHER side still shows exactly what it showed before, in either order; Set / SetCoords on a fresh clone
+\* leave the original as it was.
+EqProj(a, b) == a.pan = "" /\ b.pan = "" /\ a.l = b.l /\ a.min = b.min /\ a.max = b.max /\ a.empty = b.empty
 VClone(r) ==
-  LET c == r.case  w0 == Tight(c.l0, c.gs)
-      a1 == IF c.first = 1 THEN Tight(c.l0, Append(c.gs, c.m1)) ELSE w0      \* original after the first mutation
-      b1 == IF c.first = 2 THEN Tight(c.l0, Append(c.gs, c.m1)) ELSE w0      \* clone after the first mutation
-      a2 == IF c.first = 1 THEN a1 ELSE Tight(c.l0, Append(c.gs, c.m2))      \* then the other side is mutated with m2
-      b2 == IF c.first = 2 THEN b1 ELSE Tight(c.l0, Append(c.gs, c.m2)) IN
-  IF ~(Same(r.orig0, w0) /\ Same(r.clone0, w0)) THEN Bad("clone|Bounds|not-equal-at-clone-time", 0)
-  ELSE IF ~(Same(r.orig1, a1) /\ Same(r.clone1, b1)) THEN Bad("clone|Bounds|mutation-visible-through-the-other", 1)
-  ELSE IF ~(Same(r.orig2, a2) /\ Same(r.clone2, b2)) THEN Bad("clone|Bounds|mutation-visible-through-the-other", 2)
-  ELSE IF ~Same(r.orig3, a2) THEN Bad("clone|Bounds|Set-visible-through-the-other", 3)       \* Set / SetCoords on a fresh clone
+  LET c == r.case IN
+  IF ~EqProj(r.clone0, r.orig0) THEN Bad("clone|Bounds|not-equal-at-clone-time", 0)
+  ELSE IF ~(IF c.first = 1 THEN EqProj(r.clone1, r.clone0) ELSE EqProj(r.orig1, r.orig0)) THEN Bad("clone|Bounds|mutation-visible-through-the-other", 1)
+  ELSE IF ~(IF c.first = 1 THEN EqProj(r.orig2, r.orig1) ELSE EqProj(r.clone2, r.clone1)) THEN Bad("clone|Bounds|mutation-visible-through-the-other", 2)
+  ELSE IF ~EqProj(r.orig3, r.orig2) THEN Bad("clone|Bounds|Set-visible-through-the-other", 3)       \* Set / SetCoords on a fresh clone
   \* geom.Coord: equal bit for bit at clone time; a write to the clone (position 1 := 77) and one to the original
   \* (position 2 := 88) show only where they were made; appending to the clone leaves the original's length alone
   ELSE IF r.cc0 # r.co0 THEN Bad("clone|Coord|not-equal-at-clone-time", 4)
